@@ -27,6 +27,15 @@ def monitor(case, il, sl):
     v = monitors.stale_closeok(tr, rr)
     if v:
         return v
+    # a wake-up for a channel's queue never ends the connection (the channel may just have been
+    # closed by the server: "affects that channel only") - unless a handle was dropped without close
+    dropped = any(o.startswith("drop-handle") for o in case.ops)
+    for o, g in tr.al:
+        t = o.split()
+        if t[0] == "ev" and t[1].isdigit() and int(t[1]) != 0:
+            e = next((l for l in g if l.startswith("res err")), None)
+            if e and not (dropped and "EventLoopClientDropped" in e) and "HANG" not in e:
+                return ("the wake-up for channel %s's queue ended the whole connection: %s" % (t[1], e), "c09-connection-died")
     for f in (monitors.server_chan_close, monitors.replies, monitors.consumers):
         v = f(tr, rr, "c09-close")
         if v:
